@@ -98,10 +98,9 @@ def Always (idle : Status) (ok : Obs → Ev → Bool) (tr : List Ev) : Prop :=
 /-! ## the clauses -/
 
 /-- *one cycle always terminates after a bounded number of state calls*: in one cycle at most `2·maxloops`
-    state function calls and at most 2 cleanup function calls. -/
+    state function calls. -/
 def okBound (maxloops : Nat) (o : Obs) : Ev → Bool
   | .call _ _ => decide (o.callsInCycle < 2 * maxloops)
-  | .cleanup _ => decide (o.cleanupsInCycle < 2)
   | _ => true
 
 /-- *… and never raises* -/
@@ -153,8 +152,8 @@ def okStopInactive (o : Obs) : Ev → Bool
     takes is the most recent request (`Obs.step`); when it is a start, the next transition enters the requested
     state, no state function is called before, and the start is completed (`pickup`) right after that transition
     with the requested cleanup and with the previous attributes updated by exactly the requested ones; no taken
-    start is left over at the end of a cycle; and at the end of a cycle during which no request arrived and at
-    whose end no cleanup sequence is in progress, no request is waiting. -/
+    start is left over at the end of a cycle (`okLastStart`); and at the end of a cycle during which no request
+    arrived and at whose end no cleanup sequence is in progress, no request is waiting (`okPickedUp`). -/
 def okLastStart (o : Obs) : Ev → Bool
   | .take => o.pending.isSome
   | .enter ns =>
@@ -167,8 +166,11 @@ def okLastStart (o : Obs) : Ev → Bool
     (match o.taken with
      | some (.start s' cl' kw _) => decide (s' = s) && decide (cl' = cl) && decide (snap = updAttrs o.attrs kw)
      | _ => false)
-  | .cycleEnd _ _ =>
-    o.taken.isNone && (if !o.postedInCycle && !o.interrupted then o.pending.isNone else true)
+  | .cycleEnd _ _ => o.taken.isNone
+  | _ => true
+
+def okPickedUp (o : Obs) : Ev → Bool
+  | .cycleEnd _ _ => if !o.postedInCycle && !o.interrupted then o.pending.isNone else true
   | _ => true
 
 /-- the module is "engaged": a state function is active, or a start is waiting to be taken or being entered -/
@@ -178,7 +180,11 @@ def Obs.engaged (o : Obs) : Bool := o.cur.isSome || isStartReq o.pending || o.ta
     its final or stopped status afterwards* (while a start request is being issued by another thread — begun,
     task not yet posted — either is accepted) -/
 def okBusy (r : Rules) (o : Obs) : Ev → Bool
-  | .status st => if o.requesting then true else if o.engaged then isBusy r st else decide (st = o.idle)
+  | .status st => if o.requesting then true else if o.engaged then isBusy r st else true
+  | _ => true
+
+def okFinal (o : Obs) : Ev → Bool
+  | .status st => if o.requesting then true else if o.engaged then true else decide (st = o.idle)
   | _ => true
 
 /-! ## the clauses as properties of a history -/
@@ -189,13 +195,13 @@ def InitFlagExact (idle : Status) := Always idle okInit
 def CleanupExactlyOnce (idle : Status) := Always idle okCleanupOnce
 def CleanupNotInterrupted (idle : Status) := Always idle okCleanupNotInterrupted
 def StopMakesInactive (idle : Status) := Always idle okStopInactive
-def LastStartWins (idle : Status) := Always idle okLastStart
-def BusyUntilFinished (idle : Status) (r : Rules) := Always idle (okBusy r)
+def LastStartWins (idle : Status) (tr : List Ev) := Always idle okLastStart tr ∧ Always idle okPickedUp tr
+def BusyUntilFinished (idle : Status) (r : Rules) (tr : List Ev) := Always idle (okBusy r) tr ∧ Always idle okFinal tr
 
 /-! ## monitors -/
 
 inductive Clause where
-  | bound | noRaise | initFlag | cleanupOnce | cleanupNotInterrupted | stopInactive | lastStart | busy
+  | bound | noRaise | initFlag | cleanupOnce | cleanupNotInterrupted | stopInactive | lastStart | pickedUp | busy | final
 deriving DecidableEq, Repr
 
 def Clause.name : Clause → String
@@ -206,7 +212,9 @@ def Clause.name : Clause → String
   | .cleanupNotInterrupted => "cleanup_not_interrupted"
   | .stopInactive => "stop_makes_inactive"
   | .lastStart => "last_start_wins"
+  | .pickedUp => "last_start_wins:waiting-request-not-taken"
   | .busy => "busy_until_finished"
+  | .final => "busy_until_finished:final-status-afterwards"
 
 /-- Boolean form of `Always` -/
 def alwaysFrom (ok : Obs → Ev → Bool) (o : Obs) : List Ev → Bool
@@ -224,7 +232,9 @@ def violated (maxloops : Nat) (hasStates : Bool) (r : Rules) (o : Obs) (e : Ev) 
   (if okCleanupNotInterrupted o e then [] else [.cleanupNotInterrupted]) ++
   (if okStopInactive o e then [] else [.stopInactive]) ++
   (if okLastStart o e then [] else [.lastStart]) ++
-  (if hasStates && !okBusy r o e then [.busy] else [])
+  (if okPickedUp o e then [] else [.pickedUp]) ++
+  (if hasStates && !okBusy r o e then [.busy] else []) ++
+  (if hasStates && !okFinal o e then [.final] else [])
 
 def judgeFrom (maxloops : Nat) (hasStates : Bool) (r : Rules) (o : Obs) (i : Nat) : List Ev → List (Nat × Clause)
   | [] => []
